@@ -70,6 +70,13 @@ pub struct Context<A> {
 
 impl<A> Drop for Context<A> {
     fn drop(&mut self) {
+        self.abort_tasks();
+    }
+}
+
+impl<A> Context<A> {
+    /// Aborts all intervals and delayed tasks registered through this context.
+    pub(crate) fn abort_tasks(&mut self) {
         for task in self.tasks.drain(..) {
             task.abort();
         }
